@@ -195,4 +195,7 @@ def translated : List String := ["IncCurrent_supplyLimit_1(coin,limit_Limit)", "
 /-- every rejecting guard of the translated functions, in source order -/
 def guards : List String := ["IncCurrent: !found", "IncCurrent: limit, err := k.GetSupplyLimit(ctx, coin.Denom); err != nil", "IncCurrent: supplyLimit.IsLT(supply.CurrentSupply.Add(coin))", "IncCurrent: timeBasedSupplyLimit.IsLT(supply.TimeLimitedCurrentSupply.Add(coin))", "DecCurrent: !found", "DecCurrent: supply.CurrentSupply.Amount.Sub(coin.Amount).IsNegative()", "IncIncoming: !found", "IncIncoming: limit, err := k.GetSupplyLimit(ctx, coin.Denom); err != nil", "IncIncoming: supplyLimit.IsLT(totalSupply.Add(coin))", "IncIncoming: timeBasedSupplyLimit.IsLT(timeLimitedTotalSupply.Add(coin))", "DecIncoming: !found", "DecIncoming: supply.IncomingSupply.Amount.Sub(coin.Amount).IsNegative()", "IncOutgoing: !found", "IncOutgoing: supply.CurrentSupply.IsLT(supply.OutgoingSupply.Add(coin))", "DecOutgoing: !found", "DecOutgoing: supply.OutgoingSupply.Amount.Sub(coin.Amount).IsNegative()", "createHTLT: len(amount) != 1", "createHTLT: asset, err := k.GetAsset(ctx, amount[0].Denom); err != nil", "createHTLT: err = k.ValidateLiveAsset(ctx, amount[0]); err != nil", "createHTLT: amount[0].Amount.LT(asset.MinSwapAmount) || amount[0].Amount.GT(asset.MaxSwapAmount)", "createHTLT: timestamp < uint64(pastTimestampLimit) || timestamp >= uint64(futureTimestampLimit)", "createHTLT: to.Equals(deputyAddress)", "createHTLT: !to.Equals(deputyAddress)", "createHTLT: err := k.IncrementIncomingAssetSupply(ctx, amount[0]); err != nil", "createHTLT: timeLock < asset.MinBlockLock || timeLock > asset.MaxBlockLock", "createHTLT: amount[0].Amount.LT(asset.FixedFee.Add(asset.MinSwapAmount))", "createHTLT: err := k.IncrementOutgoingAssetSupply(ctx, amount[0]); err != nil", "createHTLT: err := k.bankKeeper.SendCoinsFromAccountToModule(ctx, sender, types.ModuleName, amount); err != nil", "claimHTLT: err := k.DecrementIncomingAssetSupply(ctx, htlc.Amount[0]); err != nil", "claimHTLT: err := k.IncrementCurrentAssetSupply(ctx, htlc.Amount[0]); err != nil", "claimHTLT: err := k.bankKeeper.MintCoins(ctx, types.ModuleName, htlc.Amount); err != nil", "claimHTLT: err := k.bankKeeper.SendCoinsFromModuleToAccount(ctx, types.ModuleName, toAddr, htlc.Amount); err != nil", "claimHTLT: err := k.DecrementOutgoingAssetSupply(ctx, htlc.Amount[0]); err != nil", "claimHTLT: err := k.DecrementCurrentAssetSupply(ctx, htlc.Amount[0]); err != nil", "claimHTLT: err := k.bankKeeper.BurnCoins(ctx, types.ModuleName, htlc.Amount); err != nil", "refundHTLT: err := k.DecrementIncomingAssetSupply(ctx, amount[0]); err != nil", "refundHTLT: err := k.DecrementOutgoingAssetSupply(ctx, amount[0]); err != nil", "refundHTLT: err := k.bankKeeper.SendCoinsFromModuleToAccount(ctx, types.ModuleName, sender, amount); err != nil", "Keeper.CreateHTLC: k.HasHTLC(ctx, id)", "Keeper.CreateHTLC: direction, err = k.createHTLT( ctx, sender, to, receiverOnOtherChain, senderOnOtherChain, amount, hashLock, timestamp, timeLock, ); err != nil", "Keeper.CreateHTLC: err = k.createHTLC(ctx, sender, amount); err != nil", "Keeper.ClaimHTLC: !found", "Keeper.ClaimHTLC: htlc.State != types.Open", "Keeper.ClaimHTLC: !bytes.Equal(types.GetHashLock(secret, htlc.Timestamp), hashLock)", "Keeper.ClaimHTLC: to, err := sdk.AccAddressFromBech32(htlc.To); err != nil", "Keeper.ClaimHTLC: err := k.claimHTLT(ctx, htlc); err != nil", "Keeper.ClaimHTLC: err := k.claimHTLC(ctx, htlc.Amount, to); err != nil", "Keeper.RefundHTLC: sender, err := sdk.AccAddressFromBech32(h.Sender); err != nil", "Keeper.RefundHTLC: err := k.refundHTLT(ctx, h.Direction, sender, h.Amount); err != nil", "Keeper.RefundHTLC: err := k.refundHTLC(ctx, sender, h.Amount); err != nil", "Keeper.ValidateLiveAsset: asset, err := k.GetAsset(ctx, coin.Denom); err != nil", "Keeper.ValidateLiveAsset: !asset.Active", "msgServer.CreateHTLC: sender, err := sdk.AccAddressFromBech32(msg.Sender); err != nil", "msgServer.CreateHTLC: to, err := sdk.AccAddressFromBech32(msg.To); err != nil", "msgServer.CreateHTLC: hashLock, err := hex.DecodeString(msg.HashLock); err != nil", "msgServer.CreateHTLC: m.k.blockedAddrs[to.String()]", "msgServer.CreateHTLC: to.Equals(m.k.accountKeeper.GetModuleAddress(types.ModuleName))", "msgServer.CreateHTLC: id, err := m.k.CreateHTLC( ctx, sender, to, msg.ReceiverOnOtherChain, msg.SenderOnOtherChain, msg.Amount, hashLock, msg.Timestamp, msg.TimeLock, msg.Transfer, ); err != nil", "msgServer.ClaimHTLC: id, err := hex.DecodeString(msg.Id); err != nil", "msgServer.ClaimHTLC: secret, err := hex.DecodeString(msg.Secret); err != nil", "msgServer.ClaimHTLC: hashLock, transfer, direction, err := m.k.ClaimHTLC(ctx, id, secret); err != nil"]
 
+/-- every statement of the translated functions executed for its effect, with its nesting depth, in source order -/
+def effects : List String := ["IncCurrent: d1 supply.TimeLimitedCurrentSupply = supply.TimeLimitedCurrentSupply.Add(coin)", "IncCurrent: d0 supply.CurrentSupply = supply.CurrentSupply.Add(coin)", "IncCurrent: d0 k.SetAssetSupply(ctx, supply, coin.Denom)", "DecCurrent: d0 supply.CurrentSupply = supply.CurrentSupply.Sub(coin)", "DecCurrent: d0 k.SetAssetSupply(ctx, supply, coin.Denom)", "IncIncoming: d0 supply.IncomingSupply = supply.IncomingSupply.Add(coin)", "IncIncoming: d0 k.SetAssetSupply(ctx, supply, coin.Denom)", "DecIncoming: d0 supply.IncomingSupply = supply.IncomingSupply.Sub(coin)", "DecIncoming: d0 k.SetAssetSupply(ctx, supply, coin.Denom)", "IncOutgoing: d0 supply.OutgoingSupply = supply.OutgoingSupply.Add(coin)", "IncOutgoing: d0 k.SetAssetSupply(ctx, supply, coin.Denom)", "DecOutgoing: d0 supply.OutgoingSupply = supply.OutgoingSupply.Sub(coin)", "DecOutgoing: d0 k.SetAssetSupply(ctx, supply, coin.Denom)", "createHTLT: d2 k.accountKeeper.SetAccount(ctx, acc)", "UpdateWindow: d1 k.SetPreviousBlockTime(ctx, previousBlockTime)", "UpdateWindow: d2 supply.TimeElapsed = newTimeElapsed", "UpdateWindow: d2 supply.TimeElapsed = time.Duration(0)", "UpdateWindow: d2 supply.TimeLimitedCurrentSupply = sdk.NewCoin(asset.Denom, math.ZeroInt())", "UpdateWindow: d1 k.SetAssetSupply(ctx, supply, asset.Denom)", "UpdateWindow: d0 k.SetPreviousBlockTime(ctx, ctx.BlockTime())", "BeginBlocker: d0 k.IterateHTLCExpiredQueueByHeight( ctx, currentBlockHeight, func(id tmbytes.HexBytes, h types.HTLC) (stop bool) { _ = k.RefundHTLC(ctx, h, id) k.DeleteHTLCFromExpiredQueue(ctx, currentBlockHeight, id) ctx.EventManager().EmitEvents(sdk.Events{ sdk.NewEvent( types.EventTypeRefundHTLC, sdk.NewAttribute(types.AttributeKeyID, id.String()), ), }) ctx.Logger().Info(fmt.Sprintf(\"HTLC [%s] is refunded\", id.String())) return false }, )", "BeginBlocker: d1 k.DeleteHTLCFromExpiredQueue(ctx, currentBlockHeight, id)", "BeginBlocker: d0 k.UpdateTimeBasedSupplyLimits(ctx)", "Keeper.CreateHTLC: d0 k.SetHTLC(ctx, htlc, id)", "Keeper.CreateHTLC: d0 k.AddHTLCToExpiredQueue(ctx, htlc.ExpirationHeight, id)", "Keeper.ClaimHTLC: d0 htlc.Secret = secret.String()", "Keeper.ClaimHTLC: d0 htlc.State = types.Completed", "Keeper.ClaimHTLC: d0 htlc.ClosedBlock = uint64(ctx.BlockHeight())", "Keeper.ClaimHTLC: d0 k.SetHTLC(ctx, htlc, id)", "Keeper.ClaimHTLC: d0 k.DeleteHTLCFromExpiredQueue(ctx, htlc.ExpirationHeight, id)", "Keeper.RefundHTLC: d0 h.State = types.Refunded", "Keeper.RefundHTLC: d0 h.ClosedBlock = uint64(ctx.BlockHeight())", "Keeper.RefundHTLC: d0 k.SetHTLC(ctx, h, id)"]
+
 end Irismod.Gen.PureHtlc
